@@ -282,6 +282,7 @@ func c06Spaces(c *fw.Ctx) {
 	c06TTLSpace(c)
 	c06GenerateSpace(c)
 	c06IncludeSpace(c)
+	c06IncludeDirSpace(c)
 }
 
 // ---------------------------------------------------------------------------------------------
